@@ -336,3 +336,44 @@ def export_falsy_model():
     except Exception as e:  # noqa
         return ['model_export of a model whose root object is falsy (empty list-like user class): %s: %s' % (type(e).__name__, e)]
     return [] if ':Model' in buf.getvalue() else ['model_export of a falsy root object: no node for it']
+
+
+# ---------------------------------------------------------------- C07 / C11 / C32: one attribute, several references
+def references_per_assignment():
+    """one attribute is assigned references at several places of a rule, with different target classes / RREL
+    expressions: each reference is looked up with the class and the expression of its own place"""
+    from textx import metamodel_from_str
+    problems = []
+
+    def load(mm, text):
+        try:
+            return mm.model_from_str(text)
+        except Exception as e:  # noqa
+            return '%s: %s' % (type(e).__name__, e)
+    # target classes (default provider)
+    for order in ("'ref' r=[A] | 'xref' r=[C]", "'xref' r=[C] | 'ref' r=[A]"):
+        mm = metamodel_from_str("Model: things*=Thing refs*=Ref;\nThing: A | C;\nA: 'a' name=ID;\nC: 'c' name=ID;\nRef: %s;" % order)
+        m = load(mm, 'a x c y ref y')
+        if not (isinstance(m, str) and 'Unknown object "y" of class "A"' in m):
+            problems.append("Ref: %s; 'ref y' with y a C: %s, expected Unknown object \"y\" of class \"A\"" % (
+                order, m if isinstance(m, str) else 'resolved to <%s:%s>' % (type(m.refs[0].r).__name__, m.refs[0].r.name)))
+        m = load(mm, 'a x c x ref x xref x')
+        got = m if isinstance(m, str) else [(type(r.r).__name__, r.r.name) for r in m.refs]
+        if got != [('A', 'x'), ('C', 'x')]:
+            problems.append("Ref: %s; 'ref x xref x' with an A and a C named x: %s, expected [A x, C x]" % (order, got))
+    # RREL expressions (grammar) - in one sequence and in a choice
+    g = ("Model: 'xs' xs*=X 'zs' zs*=X rs*=R;\nX: '#' name=ID;\n"
+         "R: 'r' a=[X|ID|xs] a=[X|ID|zs] | 'one' b=[X|ID|xs] | 'two' b=[X|ID|zs];")
+    mm = metamodel_from_str(g)
+    m = load(mm, 'xs #p #q zs #q #s r p s one q two q')
+    if isinstance(m, str):
+        problems.append('two RREL expressions on one attribute: %s' % m)
+    else:
+        got = [[x.name for x in m.rs[0].a], m.rs[1].b is m.xs[1], m.rs[2].b is m.zs[0]]
+        if got != [['p', 's'], True, True]:
+            problems.append('two RREL expressions on one attribute: %s, expected [[p, s], q of xs, q of zs]' % got)
+    m = load(mm, 'xs #p zs #s r s p')
+    if not (isinstance(m, str) and 'Unknown object' in m):
+        problems.append("a=[X|ID|xs] a=[X|ID|zs] on 'r s p' (s only in zs, p only in xs): %s, expected Unknown object"
+                        % (m if isinstance(m, str) else 'resolved'))
+    return problems
